@@ -72,6 +72,19 @@ def sweep(db, dbname, proj, events, rng, thorough, rep, light=False):
             same_exact = True
             if u == w:
                 same_exact = all(y == x and math.copysign(1, y) == math.copysign(1, x) for x, y in zip(vals_u, ys))
+                # ... for every kind of value the conversion accepts (list, tuple, numpy array)
+                import numpy
+                arr = numpy.array(vals_u)
+                same_exact = (same_exact and list(conv(qt, u, u, list(vals_u))) == list(vals_u) and tuple(conv(qt, u, u, tuple(vals_u))) == tuple(vals_u)
+                              and bool(numpy.array_equal(conv(qt, u, u, arr), arr)) and conv(qt, [(u, 1)], [(u, 1)], vals_u[1]) == vals_u[1])
+            # the same pair written as (unit, exponent 1) lists is the same conversion
+            worst_spell = 0
+            for x, y in zip(vals_u[::2], ys[::2]):
+                try:
+                    y2 = conv(qt, [(u, 1)], [(w, 1)], x)
+                    worst_spell = max(worst_spell, ppt(abs(y2 - y), max(abs(y), zero_of[(u, w)])))
+                except Exception:  # noqa
+                    worst_spell = MAXI
             # round trip u -> w -> u, judged relative to everything that entered the computation, in u
             worst_rt = 0
             s0 = max(zero_of.get((w, u), 0.0), zero_of.get((base, u), 0.0))
@@ -100,7 +113,7 @@ def sweep(db, dbname, proj, events, rng, thorough, rep, light=False):
                     worst_path = max(worst_path, ppt(abs(ys[i] - comp), max(abs(ys[i]), s1)))
             events.append({"op": "Pair", "db": dbname, "qt": qt, "u": u, "v": w, "rt_ppt": worst_rt,
                            "same_exact": same_exact, "inversions": inversions, "spans": spans,
-                           "path_ppt": worst_path, "pivots": len(pivots), "nvals": len(vals_u)})
+                           "path_ppt": worst_path, "spell_ppt": worst_spell, "pivots": len(pivots), "nvals": len(vals_u)})
             npairs += 1
     return npairs
 
@@ -181,7 +194,7 @@ def main(tier):
                           {"tb": ev["tb"], "fb": ev["fb"], "ident": ev["ident"], "behaves": ev["behaves"], "pos": ev["pos"]})
         else:
             rep.violation({"check": "Pair", "db": ev["db"], "u": ev["u"], "v": ev["v"]},
-                          {k: ev[k] for k in ("rt_ppt", "same_exact", "inversions", "spans", "path_ppt")})
+                          {k: ev[k] for k in ("rt_ppt", "same_exact", "inversions", "spans", "path_ppt", "spell_ppt")})
     rep.count(evaluations=len(events), nontrivial=npairs, traces=3)
     rep.sample(events[5])
     rep.sample(next(e for e in events if e["op"] == "Pair" and e["u"] != e["v"]))
